@@ -317,9 +317,11 @@ PROPS = {
                       "model's trace is accepted by the executable monitor step12: after every answer of the policy to the next-time question the very next actions are the schedule announcement carrying that answer, "
                       "then a timer for exactly the minimum wait when there is one, then a timer for exactly the time bound; no time-bound timer is armed otherwise; every later schedule announcement still carries "
                       "the latest answer; the same for the ping waits while waiting for the reboot.  Model tied to the code by trace equality on scripted runs (policy questions, schedule announcements, every "
-                      "timer armed with kind and value, state events, pings, reboot); the monitor also runs on every implementation trace.",
-        "level_note": "Proved for the model, unbounded, except: 'the reboot question is re-asked only when its 30-minute timer fires or an on-demand request arrives' is decided by trace equality (and, for the "
-                      "on-demand half, by the run-time rule of C11's monitor), not by a theorem.  Model = code is sampled on scripted runs.",
+                      "timer armed with kind and value, state events, pings, reboot); the monitor also runs on every implementation trace.  (3) C12_reboot_wait_* and C12_ping_turn_never_asks: while waiting for the reboot "
+                      "the question is asked only in the turn where the reboot timer fires and in the turn that sees an on-demand request.",
+        "level_note": "Proved for the model, unbounded.  'The reboot question is re-asked only when its 30-minute timer fires or an on-demand request arrives' is stated turn by turn (C12_reboot_wait_*: what one turn of "
+                      "the wait loop does for each kind of stimulus; C12_ping_turn_never_asks: the ping and the re-arming of its timers never ask), since firings are inputs and not visible in a trace.  "
+                      "Model = code is sampled on scripted runs.",
         "diff_meaning": "The arming monitor rejects the implementation's trace (code 2), or the policy/schedule/timer/state/ping/reboot projection differs from the model's.",
         "rule": "random scripts with all timing shapes, minimum wait present/absent, firing orders and proper subsets, control requests, plus 35% directed wait-for-reboot histories (install succeeds, reboot refused 3-8 times, pings with and without minimum wait, reboot-timer firings, control requests of both kinds); distinct = distinct implementation trace; non-trivial = at least one request or completed check",
         "assumptions": ["harness trait implementations follow the trait contracts", "Storage trait contract: writes cached until commit, commit atomic"],
